@@ -716,19 +716,164 @@ def check_role(repo, res):
         raise AnalysisError("from_bipartite_graph: fewer add_node_to_edge sites than expected (extractor does not recognise the code)")
     # the writer side of the same convention: tail nodes are written as node->edge arcs, head nodes as edge->node arcs
     w = fn_of(repo, "xgi.convert.bipartite_graph", "to_bipartite_graph")
-    n_w = 0
-    for lp in ast.walk(w.node):
-        if isinstance(lp, ast.For) and isinstance(lp.iter, ast.Call) and getattr(lp.iter.func, "attr", "") in ("tail", "head"):
-            side = lp.iter.func.attr
-            for c in ast.walk(lp):
-                if isinstance(c, ast.Call) and getattr(c.func, "attr", "") == "add_edge" and len(c.args) >= 2:
-                    n_w += 1
-                    first_is_node = "node_dict" in unparse(c.args[0])
-                    ok = first_is_node == (side == "tail")
-                    res.inst("T-ROLE", f"to_bipartite_graph:{c.lineno} {side} nodes written as {'node->edge' if first_is_node else 'edge->node'} arcs", ok)
-                    if not ok:
-                        res.add(mk_finding(PROP, "T-ROLE", w, c, f"to_bipartite_graph writes {side} nodes as {'node->edge' if first_is_node else 'edge->node'} arcs, the opposite of what from_bipartite_graph reads", role=side))
-    if n_w < 2:
+    check_bipartite_writer(res, w)
+
+
+def check_bipartite_writer(res, w):
+    """Writer side of T-ROLE.  Every `G.add_edge(a, b)` of to_bipartite_graph is classified by (i) which endpoint is the
+    node vertex (the argument built from the node-label map / the variable that enumerates nodes) and (ii) what the
+    node variable enumerates: the tail, the head, or the members (tail | head) of a directed edge.  Tail enumeration must
+    write node->edge arcs, head enumeration edge->node arcs.  An arc written while enumerating the *union* under a
+    membership test is accepted only in the positive branch of a test against the matching side; the `else` branch of a
+    test against one side stands for "not in that side", which for a node in both tail and head silently drops the
+    other arc."""
+    par = {}
+    for nd in ast.walk(w.node):
+        for ch in ast.iter_child_nodes(nd):
+            par[ch] = nd
+    once = {}
+    for st in ast.walk(w.node):
+        if isinstance(st, ast.Assign) and len(st.targets) == 1 and isinstance(st.targets[0], ast.Name):
+            once.setdefault(st.targets[0].id, []).append(st.value)
+    once = {k: v[0] for k, v in once.items() if len(v) == 1}
+
+    def side_of(e, depth=0):
+        """'tail' | 'head' | 'members' | None for an expression that denotes (a map of) one side of directed edges"""
+        if depth > 5 or e is None:
+            return None
+        if isinstance(e, ast.Name) and e.id in once:
+            return side_of(once[e.id], depth + 1)
+        if isinstance(e, ast.IfExp):
+            return side_of(e.body, depth + 1) or side_of(e.orelse, depth + 1)
+        if isinstance(e, ast.Call):
+            a = getattr(e.func, "attr", None)
+            if a in ("tail", "head"):
+                return a
+            if a in ("members", "dimembers"):
+                return "members"
+            if a in ("get", "items", "values", "copy") and isinstance(e.func, ast.Attribute):
+                return side_of(e.func.value, depth + 1)
+            if getattr(e.func, "id", None) in ("set", "list", "tuple", "sorted", "frozenset", "iter") and e.args:
+                return side_of(e.args[0], depth + 1)
+        if isinstance(e, ast.Subscript):
+            if isinstance(e.slice, ast.Constant) and e.slice.value in ("in", "out"):
+                return "tail" if e.slice.value == "in" else "head"
+            return side_of(e.value, depth + 1)
+        return None
+
+    def enclosing_loops(c):
+        out = []
+        p = c
+        while p in par:
+            p = par[p]
+            if isinstance(p, ast.For):
+                out.append(p)
+            elif isinstance(p, (ast.ListComp, ast.SetComp, ast.GeneratorExp, ast.DictComp)):
+                out.extend(reversed(p.generators))
+        return out
+
+    def binding_side(name, loops):
+        """side enumerated by the innermost enclosing loop that binds `name` as an element of a member set"""
+        for k, lp in enumerate(loops):
+            tnames = [n.id for n in ast.walk(lp.target) if isinstance(n, ast.Name)]
+            if name not in tnames:
+                continue
+            it = lp.iter
+            is_items = isinstance(it, ast.Call) and getattr(it.func, "attr", None) == "items"
+            if is_items or not isinstance(lp.target, ast.Name):
+                return None
+            if isinstance(it, ast.Name):
+                # the value variable of an enclosing `for e, members in X.items()` loop
+                for outer in loops[k + 1:]:
+                    oi = outer.iter
+                    if isinstance(oi, ast.Call) and getattr(oi.func, "attr", None) == "items" and isinstance(outer.target, ast.Tuple) and len(outer.target.elts) == 2 and isinstance(outer.target.elts[1], ast.Name) and outer.target.elts[1].id == it.id:
+                        return side_of(oi)
+                return side_of(it)
+            sd = side_of(it)
+            if sd is not None and isinstance(it, ast.Call) and not it.args and not any(kw.arg == "dtype" for kw in it.keywords):
+                return None  # iterating the whole view's member list: elements are sets, not nodes
+            return sd
+        return None
+
+    var_side = {}
+
+    def node_var_of(arg, loops):
+        for nm in [n.id for n in ast.walk(arg) if isinstance(n, ast.Name)]:
+            sd = binding_side(nm, loops)
+            if sd is not None:
+                var_side[("elem", nm)] = sd
+                return nm
+        return None
+
+    handles_directed = any(isinstance(x, ast.Attribute) and x.attr in ("tail", "head", "dimembers") for x in ast.walk(w.node)) or any(isinstance(x, ast.Name) and x.id == "DiHypergraph" for x in ast.walk(w.node))
+    n_w = n_dir = 0
+    for c in ast.walk(w.node):
+        if not (isinstance(c, ast.Call) and getattr(c.func, "attr", "") == "add_edge" and len(c.args) >= 2):
+            continue
+        lps = enclosing_loops(c)
+        v0, v1 = node_var_of(c.args[0], lps), node_var_of(c.args[1], lps)
+        if (v0 is None) == (v1 is None):
+            raise AnalysisError(f"to_bipartite_graph:{c.lineno}: cannot tell which endpoint of `{unparse(c, 50)}` is the node vertex (extractor does not recognise the code)")
+        first_is_node = v0 is not None
+        nv = v0 or v1
+        side = binding_side(nv, lps)
+        n_w += 1
+        # enclosing tests on the node variable
+        tests = []
+        p = c
+        while p in par:
+            prev, p = p, par[p]
+            if isinstance(p, ast.If) and prev is not p.test:
+                tests.append((p.test, prev in p.body))
+        undirected_only = False
+        for t, br in tests:
+            tt = t
+            neg = False
+            while isinstance(tt, ast.UnaryOp) and isinstance(tt.op, ast.Not):
+                tt, neg = tt.operand, not neg
+            while isinstance(tt, ast.Name) and tt.id in once and once[tt.id] is not None and isinstance(once[tt.id], (ast.Call, ast.Compare, ast.Name)):
+                tt = once[tt.id]
+            txt = unparse(tt)
+            if "DiHypergraph" in txt or "directed" in unparse(t):
+                if (br != neg) is False:
+                    undirected_only = True
+        if side in ("tail", "head"):
+            n_dir += 1
+            ok = first_is_node == (side == "tail")
+            res.inst("T-ROLE", f"to_bipartite_graph:{c.lineno} {side} nodes written as {'node->edge' if first_is_node else 'edge->node'} arcs", ok)
+            if not ok:
+                res.add(mk_finding(PROP, "T-ROLE", w, c, f"to_bipartite_graph writes {side} nodes as {'node->edge' if first_is_node else 'edge->node'} arcs, the opposite of what from_bipartite_graph reads", role=side))
+            continue
+        # the node variable enumerates all members of the edge
+        if not handles_directed or undirected_only:
+            ok = first_is_node
+            res.inst("T-ROLE", f"to_bipartite_graph:{c.lineno} members of an undirected edge written as node->edge arcs", ok)
+            if not ok:
+                res.add(mk_finding(PROP, "T-ROLE", w, c, "to_bipartite_graph writes the members of an undirected edge as edge->node arcs; from_bipartite_graph reads node->edge", role="members"))
+            continue
+        # directed input possible here: which side does the guard establish for this arc?
+        want = "tail" if first_is_node else "head"
+        guard = None
+        for t, br in tests:
+            if isinstance(t, ast.Compare) and len(t.ops) == 1 and isinstance(t.ops[0], (ast.In, ast.NotIn)) and isinstance(t.left, ast.Name) and t.left.id == nv:
+                sd = side_of(t.comparators[0])
+                positive = isinstance(t.ops[0], ast.In) == br
+                guard = (sd, positive, t)
+                break
+        n_dir += 1
+        if guard is None:
+            # unguarded: correct only for undirected input, where every member is written node->edge
+            ok = first_is_node
+            res.inst("T-ROLE", f"to_bipartite_graph:{c.lineno} unguarded arc for a member of the union", ok)
+            if not ok:
+                res.add(mk_finding(PROP, "T-ROLE", w, c, f"to_bipartite_graph: `{unparse(c, 50)}` writes an edge->node arc for every member of the edge", role="members"))
+            continue
+        sd, positive, t = guard
+        ok = positive and sd == want
+        res.inst("T-ROLE", f"to_bipartite_graph:{c.lineno} arc of a member of tail|head decided by a positive test against the {want}", ok)
+        if not ok:
+            res.add(mk_finding(PROP, "T-ROLE", w, c, f"to_bipartite_graph: `{unparse(c, 50)}` is written for a member enumerated once from tail|head in the {'positive' if positive else 'else'} branch of `{unparse(t, 40)}`; 'not in the {sd}' is taken to mean 'in the {want}' only, so a node that is in both the tail and the head of the edge gets one arc instead of two and the membership is lost on the way back", role="direction"))
+    if n_w < 2 or (handles_directed and n_dir < 2):
         raise AnalysisError("to_bipartite_graph: tail/head arc writers not found (extractor does not recognise the code)")
 
 
